@@ -1,6 +1,6 @@
 // C01: the interpolant reproduces the loaded model values at every loaded point, for all value arrays.
 // args: <grid spec> <script> [param]
-// scripts: load | reload | refine (param: classic|parents|direction|fds|stable|aniso|surplus) | construct (param: batch size) | construct1
+// scripts: load | reload | refine (param: classic|parents|direction|fds|stable|aniso|surplus) | construct (param: batch size) | construct1 | construct1r (one at a time, last candidate first)
 //          reupdate: load, updateGrid with the anisotropic weights reversed (the new selection is not a superset of the old one), load, updateGrid(depth+1, original weights), load
 //          sym (param: number of steps): after the load, every step is chosen by the solver (see solverChosenHistory in tgrid.hpp); reproduction is checked after each step
 //          mixed (param: batch size): load, refinement left pending, construction, finish, load whatever is needed, refine, load
@@ -14,7 +14,7 @@ static void check_reproduction(const TasmanianSparseGrid &grid, SymModel &model,
   if (n == 0 || outs == 0) return;
   if (grid.isLocalPolynomial() && !lpParentComplete(grid)){ fpsym_note("incomplete_hierarchy_skipped", 1); return; }
   std::vector<double> pts = grid.getLoadedPoints();
-  double scale = 1.0 + n;
+  double scale = (1.0 + n) * g_vscale;
   std::vector<double> yb; grid.evaluateBatch(pts, yb);
   std::string l1 = std::string(stage) + ": evaluate(x_i) == y_i", l2 = std::string(stage) + ": evaluateBatch row i == y_i", l3 = std::string(stage) + ": evaluateFast(x_i) == y_i";
   for (int i=0;i<n;i++){
@@ -32,7 +32,7 @@ static void check_reproduction(const TasmanianSparseGrid &grid, SymModel &model,
 }
 
 int main(int argc, char **argv){
-  GridSpec g = parseSpec(argv[1]); std::string script = argv[2]; std::string param = argc > 3 ? argv[3] : "";
+  GridSpec g = parseSpec(argv[1]); std::string script = argv[2]; std::string param = (argc > 3 && strncmp(argv[3], "vs=", 3) != 0) ? argv[3] : ""; parseVScale(argc, argv);
   TasmanianSparseGrid grid; makeGrid(grid, g);
   SymModel model(g.outputs);
   int d = g.dims;
@@ -83,20 +83,21 @@ int main(int argc, char **argv){
     if (grid.getNumNeeded() > 0){ grid.loadNeededValues(model.values(grid.getNeededPoints(), d)); check_reproduction(grid, model, "after the final load of the needed points"); }
   }
   if (script == "mixed"){ refine_once(fpsym_symbolic(0.05, 5, 0.0, 0.6), 0); fpsym_note("pending_before_construction", grid.getNumNeeded()); }   // left pending
-  if (script == "construct" || script == "construct1" || script == "mixed"){
-    int batch = script == "construct1" ? 1 : atoi(param.c_str()); if (batch <= 0) batch = 1000000;
+  if (script == "construct" || script == "construct1" || script == "construct1r" || script == "mixed"){
+    int batch = (script == "construct1" || script == "construct1r") ? 1 : atoi(param.c_str()); if (batch <= 0) batch = 1000000;
     int budget = script == "mixed" ? 2 * batch : 3 * grid.getNumPoints() / 2 + 2, done = 0;
     grid.beginConstruction();
     while (done < budget){
       std::vector<double> cand;
-      if (grid.isLocalPolynomial() || grid.isWavelet()) cand = grid.getCandidateConstructionPoints(0.0, refine_fds, -1, g.ll);
+      if (grid.isLocalPolynomial() || grid.isWavelet()) cand = grid.getCandidateConstructionPoints(0.0, script == "construct1r" ? refine_classic : refine_fds, -1, g.ll);   // classic: a child is proposed as soon as ONE parent is loaded, its other parents may arrive later
       else cand = grid.getCandidateConstructionPoints(type_iptotal, 0, g.ll);
       int nc = (int) cand.size() / d; if (nc == 0) break;
       int take = std::min(std::min(batch, nc), budget - done);
       std::vector<double> x(cand.begin(), cand.begin() + (size_t) take * d);
+      if (script == "construct1r") x = std::vector<double>(cand.end() - d, cand.end());   // the LAST candidate, alone: deep points arrive before some of their other parents
       grid.loadConstructedPoints(x, model.values(x, d));
       done += take;
-      if (grid.getNumLoaded() > 0 && (script == "construct1" ? (done % 4 == 0) : true)) check_reproduction(grid, model, "during construction");
+      if (grid.getNumLoaded() > 0 && ((script == "construct1" || script == "construct1r") ? (done % 4 == 0) : true)) check_reproduction(grid, model, "during construction");
     }
     grid.finishConstruction();
     check_reproduction(grid, model, "after finishConstruction");
